@@ -32,6 +32,11 @@ func (r ReplaceFieldFilter) Filter(ctx context.Context, result Result) (Result, 
 		return util.DefaultValue[Result](), fmt.Errorf("failed preparing field for replacement: %w", err)
 	}
 
+	// Verify the replacing field does not collide with another existing field
+	if fieldMeta.Urn() != r.fieldUrnToReplace && result.HasField(fieldMeta.Urn()) {
+		return util.DefaultValue[Result](), fmt.Errorf("cannot replace field %s with %s, since it already exists in the result", r.fieldUrnToReplace, fieldMeta.Urn())
+	}
+
 	// Find the index of the field to replace
 	fieldsMeta := result.FieldsMeta()
 	replaceIdx := -1
